@@ -30,10 +30,19 @@ Definition mini_case := (N * prog * option (mut * site) * N * N * bool)%type.
 Definition the_mutant (p : prog) (ms : option (mut * site)) : option prog :=
   match ms with None => Some p | Some (m, st) => mutate m p st end.
 
+(** yaegi and go/types agree on the case: rejected by both or accepted by both *)
+Definition agree (o : N) (accepted : bool) : bool :=
+  if accepted then N.eqb o 0 else N.eqb o 1.
+
+(** a case Y does not model ([Unk]) is skipped only if yaegi agrees with go/types on it: a
+    disagreement has to be predicted by the model to be attributed to a known finding *)
 Definition mini_mis_y (cs : list mini_case) : list N :=
-  flat_map (fun '(id, p, ms, h, o, _) =>
+  flat_map (fun '(id, p, ms, h, o, r) =>
     match the_mutant p ms with
-    | Some p' => if N.eqb (prog_hash p') h && obs_matches (y_check p') o then [] else [id]
+    | Some p' =>
+        let y := y_check p' in
+        if N.eqb (prog_hash p') h && obs_matches y o && (match y with Unk => agree o r | _ => true end)
+        then [] else [id]
     | None => [id]
     end) cs.
 
